@@ -39,14 +39,24 @@ BIG_N = 10_001          # larger than any plausible chunk constant (2000 / 5000 
 
 
 def strict_eq(a, b):
-    """== and the same types all the way down (dict key order is not looked at)."""
-    if type(a) is not type(b):
-        return False
-    if isinstance(a, dict):
-        return a.keys() == b.keys() and all(strict_eq(a[k], b[k]) for k in a)
-    if isinstance(a, (list, tuple)):
-        return len(a) == len(b) and all(strict_eq(x, y) for x, y in zip(a, b))
-    return a == b
+    """== and the same types all the way down (dict key order is not looked at).
+    Iterative (round 5): data nested hundreds deep must not exhaust the interpreter's C stack here."""
+    todo = [(a, b)]
+    while todo:
+        a, b = todo.pop()
+        if type(a) is not type(b):
+            return False
+        if isinstance(a, dict):
+            if a.keys() != b.keys():
+                return False
+            todo.extend((a[k], b[k]) for k in a)
+        elif isinstance(a, (list, tuple)):
+            if len(a) != len(b):
+                return False
+            todo.extend(zip(a, b))
+        elif not (a == b):
+            return False
+    return True
 
 
 def twin_value(v, k=0):
@@ -68,8 +78,18 @@ def has_twin(v):
     return not strict_eq(twin_value(v), v)
 
 
+def _deep(v, limit=60):
+    n = 0
+    while isinstance(v, (dict, list, tuple)) and v and n <= limit:
+        v = next(iter(v.values())) if isinstance(v, dict) else v[0]
+        n += 1
+    return n > limit
+
+
 def typed_repr(v):
     """a text that tells look-alikes apart (for logs / canonical forms)"""
+    if _deep(v):
+        return "<%s nested more than 60 deep>" % type(v).__name__
     if type(v) is dict:
         return "{" + ", ".join(f"{k!r}: {typed_repr(x)}" for k, x in v.items()) + "}"
     if type(v) is list:
@@ -79,6 +99,17 @@ def typed_repr(v):
 
 def freeze(v):
     """a hashable whose == / hash agree with Python's == on JSON-like values (dict order ignored, 1 == 1.0 == True)"""
+    if _deep(v):
+        # a long chain of one-element containers (round 5: data nested hundreds deep): walked iteratively
+        path = []
+        while isinstance(v, (dict, list, tuple)) and len(v) == 1:
+            if isinstance(v, dict):
+                (k, v), = v.items()
+                path.append(("d", k))
+            else:
+                path.append(("l" if isinstance(v, list) else "t", None))
+                v = v[0]
+        return ("chain", tuple(path), freeze(v))
     if isinstance(v, dict):
         return ("d", frozenset((k, freeze(x)) for k, x in v.items()))
     if isinstance(v, (list, tuple)):
